@@ -95,6 +95,7 @@ pub struct Exec {
     /// call ids of send_batchable calls, in order
     batch_calls: Vec<u64>,
     calls_scope: HashMap<u64, String>,
+    link_sess: HashMap<String, String>,
     /// await_outcome call id -> the send_batchable call it resolves
     await_of: HashMap<u64, u64>,
 }
@@ -108,9 +109,9 @@ fn err_json<E: std::fmt::Debug>(e: &E) -> J {
     let cond = d.find("Symbol(\"").map(|i| { let r = &d[i + 8..]; r[..r.find('"').unwrap_or(0)].to_string() })
         .or_else(|| d.find("condition: ").map(|i| { let r = &d[i + 11..]; r[..r.find(',').unwrap_or(r.len())].to_string() }))
         .unwrap_or_default();
-    json!({"ok": false, "class": class_of(&d), "cond": cond, "idle_timeout": d.contains("IdleTimeout"), "dbg": d.chars().take(220).collect::<String>()})
+    json!({"ok": false, "class": class_of(&d), "cond": cond, "idle_timeout": d.contains("IdleTimeout"), "says_conn": d.contains("ConnectionStopped") || d.starts_with("TransportError") || d.starts_with("RemoteClosed"), "says_sess": d.contains("SessionStopped") || d.contains("RemoteEnded"), "dbg": d.chars().take(220).collect::<String>()})
 }
-fn ok_json() -> J { json!({"ok": true, "class": "", "cond": "", "idle_timeout": false, "dbg": ""}) }
+fn ok_json() -> J { json!({"ok": true, "class": "", "cond": "", "idle_timeout": false, "says_conn": false, "says_sess": false, "dbg": ""}) }
 
 pub fn build_message(m: u32, len: usize, shape: &str) -> Message<Body<Value>> {
     let body = Binary::from(pattern(m, len));
@@ -148,7 +149,7 @@ impl Exec {
         Exec { log: vec![], t0: tokio::time::Instant::now(), cpu_mark: crate::mon::thread_cpu_ns(), alloc_mark: crate::mon::alloc_mark(), side_listener: listener, peer: None, buf: vec![], eof_logged: false, sh: Shifts::default(), conn: None, sessions: HashMap::new(),
                senders: HashMap::new(), receivers: HashMap::new(), held: HashMap::new(), futs: HashMap::new(), calls: vec![], next_call: 1, roles: HashMap::new(),
                pending_begins: vec![], eut_channel: HashMap::new(), eut_dids: HashMap::new(), eut_frames: HashMap::new(), eut_noi: HashMap::new(),
-               out_progress: HashMap::new(), sent_queue: HashMap::new(), link_of_handle: HashMap::new(), pending_attach: vec![], msg_shapes: HashMap::new(), names: HashMap::new(), eut_sender_dc: HashMap::new(), peer_link_name: HashMap::new(), gates: HashMap::new(), batch_calls: vec![], calls_scope: HashMap::new(), await_of: HashMap::new() }
+               out_progress: HashMap::new(), sent_queue: HashMap::new(), link_of_handle: HashMap::new(), pending_attach: vec![], msg_shapes: HashMap::new(), names: HashMap::new(), eut_sender_dc: HashMap::new(), peer_link_name: HashMap::new(), gates: HashMap::new(), batch_calls: vec![], calls_scope: HashMap::new(), link_sess: HashMap::new(), await_of: HashMap::new() }
     }
     fn t(&self) -> u64 { tokio::time::Instant::now().duration_since(self.t0).as_millis() as u64 }
     fn emit(&mut self, mut j: J) {
@@ -423,6 +424,7 @@ impl Exec {
                 let Some(sess) = self.sessions.remove(&s) else { return self.skip(e, "no session handle"); };
                 let name = cfg.get("name").and_then(|x| x.as_str()).unwrap_or(&l).to_string();
                 self.names.insert(l.clone(), name.clone());
+                self.link_sess.insert(l.clone(), s.clone());
                 let snd = match cfg.get("snd").and_then(|x| x.as_i64()).unwrap_or(2) { 0 => SenderSettleMode::Unsettled, 1 => SenderSettleMode::Settled, _ => SenderSettleMode::Mixed };
                 let rcv = if cfg.get("rcv").and_then(|x| x.as_i64()).unwrap_or(0) == 1 { ReceiverSettleMode::Second } else { ReceiverSettleMode::First };
                 let (ln, sn) = (l.clone(), s.clone());
@@ -646,6 +648,7 @@ impl Exec {
             }
             "HookArm" => { let n = e["name"].as_str().unwrap_or("").to_string(); let g = fe2o3_amqp::verif::arm(&n); self.gates.insert(n.clone(), g); self.emit(json!({"ev": "Hook", "op": "arm", "name": n, "hits": 0})); }
             "HookRelease" => { let n = e["name"].as_str().unwrap_or("").to_string(); let hits = self.gates.get(&n).map(|g| { let h = g.hits.load(Ordering::SeqCst); g.release(); h }).unwrap_or(0); fe2o3_amqp::verif::disarm(&n); self.gates.remove(&n); self.emit(json!({"ev": "Hook", "op": "release", "name": n, "hits": hits})); }
+            "Mark" => { self.emit(json!({"ev": "Mark", "what": e["what"]})); }
             "Settle" => {}
             other => { self.emit(json!({"ev": "Skip", "what": other, "why": "unknown event"})); }
         }
@@ -673,7 +676,12 @@ impl Exec {
             }
         }
         self.settle().await;
-        self.emit(json!({"ev": "End", "pending": self.calls.iter().map(|c| json!({"call": c.id, "op": c.op, "scope": c.scope})).collect::<Vec<_>>(), "panics": crate::mon::panic_count()}));
+        let pend: Vec<J> = self.calls.iter().map(|c| {
+            let label = c.scope.strip_prefix("l:").unwrap_or("");
+            let sess = if label.is_empty() { c.scope.strip_prefix("s:").map(|x| format!("s:{x}")).unwrap_or_default() } else { self.link_sess.get(label).map(|x| format!("s:{x}")).unwrap_or_default() };
+            json!({"call": c.id, "op": c.op, "scope": c.scope, "lname": self.names.get(label).cloned().unwrap_or_default(), "sess": sess})
+        }).collect();
+        self.emit(json!({"ev": "End", "pending": pend, "panics": crate::mon::panic_count()}));
         fe2o3_amqp::verif::disarm_all();
         for c in &self.calls { c.h.abort(); }
         // forget the handles: dropping them would start teardown traffic nobody observes
